@@ -38,8 +38,8 @@ type Input struct {
 	Fam  string `json:"fam"`  // generator family (evidence only)
 	HTML string `json:"html"` // literal document handed to webrender
 	Root *Node  `json:"root"` // the <html> element; its kids are [<body>]
-	// NoGuard disables the known-deviation domain guard for this input (set in findings/C09/*.json,
-	// so that a witness of a listed deviation is judged instead of skipped)
+	// NoGuard is obsolete (the known-deviation guards were removed once D1–D3 were fixed in /repo);
+	// kept so that the witnesses under findings/C09 still decode; ignored
 	NoGuard bool `json:"noguard,omitempty"`
 }
 
